@@ -753,9 +753,10 @@ func (rw *rewriter) pre(c *astutil.Cursor) {
 
 // ---------------------------------------------------------------- post-order rewriting
 
-var syncNames = map[string]bool{"Mutex": true, "RWMutex": true, "WaitGroup": true, "Pool": true, "Once": true, "Locker": true}
+var syncNames = map[string]bool{"Mutex": true, "RWMutex": true, "WaitGroup": true, "Pool": true, "Once": true, "Locker": true,
+	"Cond": true, "NewCond": true, "Map": true, "OnceFunc": true, "OnceValue": true, "OnceValues": true}
 var timeAlways = map[string]bool{"Now": true, "Since": true, "Until": true, "Sleep": true}
-var timeChan = map[string]bool{"After": true, "Tick": true, "NewTimer": true, "Timer": true}
+var timeChan = map[string]bool{"After": true, "Tick": true, "NewTimer": true, "Timer": true, "AfterFunc": true, "NewTicker": true, "Ticker": true}
 var osNames = map[string]bool{"Rename": true, "Open": true, "Create": true, "OpenFile": true, "Remove": true, "Stat": true, "Lstat": true,
 	"ReadFile": true, "WriteFile": true, "Link": true, "Symlink": true, "SameFile": true, "Truncate": true, "RemoveAll": true, "Mkdir": true, "MkdirAll": true, "File": true}
 var ioNames = map[string]bool{"Copy": true, "CopyN": true, "CopyBuffer": true, "ReadAll": true}
